@@ -801,7 +801,8 @@ func (h *c09H) stats() {
 }
 
 type c09Round struct {
-	pools   []int // frames per pool (the first region also hosts the one-frame kernel image)
+	pools   []int // frames per pool, in memory-map order (the first region also hosts the one-frame kernel image)
+	rank    []int // rank[i] = position of pool i by address (nil: ascending, i.e. rank[i] = i)
 	workers int
 	ops     int
 	yield   int // 0: sync.yieldFn = nil (the kernel's configuration), 1: runtime.Gosched
@@ -813,30 +814,58 @@ type c09Stats struct {
 }
 
 // buildMap lays the pools out from frame 256 upwards, separated by gaps or reserved regions.
-func c09BuildMap(r *vrng, pools []int) (regs []c09Region, ks, ke uint64, unmanaged []uint64) {
+// The memory map lists the pools in the order given (a bootloader need not sort its map); rank says
+// where each pool lies by address: rank = [1 2 0] puts the third listed pool lowest.
+func c09BuildMap(r *vrng, pools, rank []int) (regs []c09Region, ks, ke uint64, unmanaged []uint64) {
+	slotPool := make([]int, len(pools)) // address slot -> pool index
+	for i := range pools {
+		k := i
+		if rank != nil {
+			k = rank[i]
+		}
+		slotPool[k] = i
+	}
+	groups := make([][]c09Region, len(pools))
 	cur := uint64(0x100000)
-	for i, n := range pools {
+	for slot, i := range slotPool {
+		n := pools[i]
 		addr, length := cur, uint64(n)*4096
-		if i > 0 && r.chance(30) { // unaligned region: the partial pages at both ends are not frames
+		if slot > 0 && i > 0 && r.chance(30) { // unaligned region: the partial pages at both ends are not frames
 			addr -= uint64(1 + r.intn(4095))
 			length += uint64(1+r.intn(4095)) + (cur - addr)
 		}
-		regs = append(regs, c09Region{addr, length, 1})
+		groups[i] = append(groups[i], c09Region{addr, length, 1})
 		if i == 0 {
 			ks, ke = cur, cur+1+uint64(r.intn(4096))
 		}
 		cur += uint64(n) * 4096
 		gap := uint64(1 + r.intn(3))
 		if r.chance(40) {
-			regs = append(regs, c09Region{cur + 4096, gap * 4096, r.pick(2, 3, 4)})
+			groups[i] = append(groups[i], c09Region{cur + 4096, gap * 4096, r.pick(2, 3, 4)})
 		}
 		for g := uint64(0); g <= gap+1; g++ {
 			unmanaged = append(unmanaged, cur/4096+g)
 		}
 		cur += (gap + 2) * 4096
 	}
+	for _, g := range groups {
+		regs = append(regs, g...)
+	}
 	unmanaged = append(unmanaged, 0, 1, 255, cur/4096+7)
 	return
+}
+
+// c09Perm: a random permutation of 0..n-1
+func c09Perm(r *vrng, n int) []int {
+	p := make([]int, n)
+	for i := range p {
+		p[i] = i
+	}
+	for i := n - 1; i > 0; i-- {
+		j := r.intn(i + 1)
+		p[i], p[j] = p[j], p[i]
+	}
+	return p
 }
 
 func (h *c09H) round(id string, rd c09Round) (stuck bool) {
@@ -851,7 +880,7 @@ func (h *c09H) round(id string, rd c09Round) (stuck bool) {
 	}()
 	h.out.printf("case %s\n", id)
 	r := &vrng{s: rd.seed}
-	regs, ks, ke, unmanaged := c09BuildMap(r, rd.pools)
+	regs, ks, ke, unmanaged := c09BuildMap(r, rd.pools, rd.rank)
 	if !h.setup(regs, ks, ke) {
 		return false
 	}
@@ -1043,6 +1072,14 @@ wait:
 	for _, n := range rd.pools {
 		roundOp += fmt.Sprintf(" %d", n)
 	}
+	roundOp += " o"
+	for i := range rd.pools {
+		k := i
+		if rd.rank != nil {
+			k = rd.rank[i]
+		}
+		roundOp += fmt.Sprintf(" %d", k)
+	}
 	stuckObs := fmt.Sprintf("%d 0 1 0 t 0 0 %d 0 0 c %d 0 0 0 0 0 0 0 0 0", atomic.LoadInt64(&st.dup), free0, atomic.LoadInt64(&tick))
 	if stuck {
 		h.out.printf("%s | %s\n", roundOp, stuckObs)
@@ -1134,12 +1171,17 @@ func TestVerifC09(t *testing.T) {
 	}
 	rng := &vrng{s: verifSeed()}
 
-	// deterministic boundary list: one-frame pools, bitmap word boundaries, 2 and 16 workers, both yield modes
+	// deterministic boundary list: one-frame pools, bitmap word boundaries, 2 and 16 workers, both yield modes;
+	// then memory maps that list the pools in non-ascending address order (descending, [high low middle], ...)
 	b := 0
-	for _, pools := range [][]int{{2}, {3, 1}, {2, 1, 1}, {64}, {65}, {66, 1}, {130}, {63, 64, 65}, {5, 130, 1}, {2, 1, 2, 3, 130}} {
+	type cfg struct{ pools, rank []int }
+	for _, c := range []cfg{{[]int{2}, nil}, {[]int{3, 1}, nil}, {[]int{2, 1, 1}, nil}, {[]int{64}, nil}, {[]int{65}, nil},
+		{[]int{66, 1}, nil}, {[]int{130}, nil}, {[]int{63, 64, 65}, nil}, {[]int{5, 130, 1}, nil}, {[]int{2, 1, 2, 3, 130}, nil},
+		{[]int{3, 64}, []int{1, 0}}, {[]int{2, 65, 1}, []int{2, 0, 1}}, {[]int{5, 130, 1}, []int{1, 2, 0}},
+		{[]int{4, 63, 64, 65}, []int{3, 2, 1, 0}}} {
 		for _, wy := range [][2]int{{2, 0}, {16, 1}, {14, 0}} {
 			b++
-			if h.round(fmt.Sprintf("b%d", b), c09Round{pools, wy[0], ops, wy[1], uint64(b)}) {
+			if h.round(fmt.Sprintf("b%d", b), c09Round{c.pools, c.rank, wy[0], ops, wy[1], uint64(b)}) {
 				return
 			}
 			h.out.w.Flush()
@@ -1152,7 +1194,11 @@ func TestVerifC09(t *testing.T) {
 		for k := r.intn(4); k > 0; k-- {
 			pools = append(pools, c09Sizes[r.intn(len(c09Sizes))])
 		}
-		rd := c09Round{pools, r.between(2, 16), ops/2 + r.intn(ops), r.intn(2), r.next()}
+		var rank []int
+		if len(pools) > 1 && r.chance(50) {
+			rank = c09Perm(r, len(pools))
+		}
+		rd := c09Round{pools, rank, r.between(2, 16), ops/2 + r.intn(ops), r.intn(2), r.next()}
 		if h.round(fmt.Sprint(i), rd) {
 			return
 		}
